@@ -275,15 +275,15 @@ static inline I64 NARROW_SREM(I64 a, I64 b){ __CPROVER_assume(-(1LL<<(ARITH_NARR
 #ifdef LL2C_NATIVE
 #define PTR_SANE(p) 1
 #else
-/* the symbolic base pointer sits in the middle of CBMC's 56-bit offset range, so that +-2^51 bytes never wrap (an artefact of its pointer encoding, not of the code) */
-#define PTR_SANE(p) ((p) != 0 && (I64)__CPROVER_POINTER_OFFSET(p) >= (1LL<<52) && (I64)__CPROVER_POINTER_OFFSET(p) < (1LL<<53))
+/* the symbolic base pointer sits well inside CBMC's offset range (48 bits even with --object-bits 16), so that +-2^43 bytes never wrap (an artefact of its pointer encoding, not of the code) */
+#define PTR_SANE(p) ((p) != 0 && (I64)__CPROVER_POINTER_OFFSET(p) >= (1LL<<44) && (I64)__CPROVER_POINTER_OFFSET(p) < (1LL<<45))
 #endif
 #define IMPLIES(a,b) (!(a) || (b))
 #define BIG (1LL<<40)
 #define SMALL (1LL<<30)
 #define MAX1(x) ((x) > 1 ? (x) : 1)
 #define INR(x) (-BIG < (x) && (x) < BIG)
-#define INOFF(x) (-(1LL<<48) < (x) && (x) < (1LL<<48))
+#define INOFF(x) (-(1LL<<40) < (x) && (x) < (1LL<<40))
 '''
 
 def lemma_header():
@@ -317,7 +317,9 @@ class Runner:
         stubfns = []
         for st in check.stubs:
             r = re.compile(st.fn_re); hits = sorted(n for n, d in inst.dem.items() if r.fullmatch(d))
-            if not hits: hits = sorted(n for n in m.decls if r.fullmatch(n[1:]))      # external C function (declaration only)
+            if not hits:      # external function (declaration only): match the symbol or its demangled form
+                dn = list(m.decls); dd = demangle([n[1:].strip('"') for n in dn])
+                hits = sorted(n for n, d_ in zip(dn, dd) if r.fullmatch(n[1:]) or r.fullmatch(d_))
             if not hits and st.optional: continue
             if not hits: raise Broken('check %s: stub pattern %s matches no function of the IR (inlined away / renamed?)' % (check.id, st.fn_re))
             if len(hits) > 1 and not st.only_first: raise Broken('check %s: stub pattern %s matches %d functions: %s' % (check.id, st.fn_re, len(hits), [inst.dem[h] for h in hits][:4]))
@@ -636,7 +638,15 @@ def json_value_to_c(v, path=''):
     if nm == 'integer':
         d = re.sub(r'[uUlL]+$', '', str(v.get('data', '0')))
         if d.upper() in ('TRUE', 'FALSE'): return '1' if d.upper() == 'TRUE' else '0'
-        if not re.fullmatch(r'-?\d+', d): return '0'
+        mc = re.fullmatch(r"'(.)'", d)
+        if mc: return str(ord(mc.group(1)))
+        if not re.fullmatch(r'-?\d+', d):
+            b = v.get('binary')
+            if b and re.fullmatch(r'[01]+', b) and len(b) <= 64:
+                x = int(b, 2)
+                if b[0] == '1' and not str(v.get('type', '')).startswith('unsigned'): x -= 1 << len(b)
+                return str(x) + 'LL'
+            return '0'
         if d == '-9223372036854775808': return '(-9223372036854775807LL-1)'
         if len(d.lstrip('-')) > 18: return d + 'ULL'
         return d + 'LL'
@@ -644,7 +654,7 @@ def json_value_to_c(v, path=''):
     if nm == 'float':
         d = re.sub(r'[fFlL]$', '', str(v.get('data', '0')))
         return d if re.fullmatch(r'[-+0-9.eE]+', d) else '0'
-    if nm == 'pointer':
+    if nm == 'pointer' or nm == 'unknown' or str(v.get('type', '')).rstrip().endswith('*'):   # 'unknown': CBMC cannot print a non-deterministic (invalid-object) pointer
         d = v.get('data', '')
         mm = re.search(r'NULL\)\)? *\+ *(\d+)', d or '')
         if d and 'NULL' in d and not mm and path.count('.') == 0 and False: return '0'
